@@ -382,7 +382,7 @@ def strat_slices_hist(tier):
     ax = U.axis_len({'quick': 16, 'thorough': 40}[tier], 3)
     mv = st.integers(-3, 3)
     return st.fixed_dictionaries({'shape': st.tuples(ax, ax).map(list), 'dx': st.sampled_from([1.0, 0.5, 0.2]),
-                                  'moves': st.lists(st.tuples(st.sampled_from(['shift-xy', 'rescale', 'read-slices']), mv, mv).map(list), min_size=1, max_size=5),
+                                  'moves': st.lists(st.tuples(st.sampled_from(['shift-xy', 'rescale', 'read-slices', 'flip-axis']), mv, mv).map(list), min_size=1, max_size=5),
                                   'twosided': st.booleans()})
 
 
@@ -394,35 +394,42 @@ def check_slices_hist(case, ctx):
     data = _marker((ny, nx))
     rd = RichData(data, dx, 0.5)
     ox, oy = nx // 2, ny // 2            # model: index of the origin sample
+    sgx = sgy = 1.0                      # model: direction of each axis (a caller may use a y-down or x-left convention: descending coordinates)
     ctx.nt(True)
     asked = False
+
+    def assign():
+        rd.x = np.broadcast_to(sgx * (np.arange(nx) - ox) * dx, (ny, nx)).copy()
+        rd.y = np.broadcast_to((sgy * (np.arange(ny) - oy) * dx)[:, None], (ny, nx)).copy()
     for kind, a, b in case['moves']:
         if kind == 'read-slices':
             ctx.call(rd.slices, case['twosided'])
             asked = True
             continue
         if kind == 'shift-xy':
-            nox = min(max(ox + a, 0), nx - 1)
-            noy = min(max(oy + b, 0), ny - 1)
-            rd.x = np.broadcast_to((np.arange(nx) - nox) * dx, (ny, nx)).copy()
-            rd.y = np.broadcast_to(((np.arange(ny) - noy) * dx)[:, None], (ny, nx)).copy()
-            ox, oy = nox, noy
+            ox = min(max(ox + a, 0), nx - 1)
+            oy = min(max(oy + b, 0), ny - 1)
+        elif kind == 'flip-axis':
+            if a >= 0:
+                sgy = -sgy
+            if b >= 0:
+                sgx = -sgx
+            ctx.label('descending-axis' if (sgx < 0 or sgy < 0) else 'ascending-axes')
         else:
             dx = dx * (1.5 if a >= 0 else 0.5)
             rd.dx = dx
-            rd.x = np.broadcast_to((np.arange(nx) - ox) * dx, (ny, nx)).copy()
-            rd.y = np.broadcast_to(((np.arange(ny) - oy) * dx)[:, None], (ny, nx)).copy()
+        assign()
         sl = ctx.call(rd.slices, True)
         ux, sx = sl.x
         uy, sy = sl.y
-        what = 'after %s (origin sample now [%d,%d] of %s%s)' % (kind, oy, ox, [ny, nx], ', slices() had been called before' if asked else '')
+        what = 'after %s (origin sample now [%d,%d] of %s, axis directions x %+d y %+d%s)' % (kind, oy, ox, [ny, nx], sgx, sgy, ', slices() had been called before' if asked else '')
         U.check_equal(sx, data[oy, :], 'slices:stale-origin:x', 'x slice is not the row through the current origin ' + what)
         U.check_equal(sy, data[:, ox], 'slices:stale-origin:y', 'y slice is not the column through the current origin ' + what)
-        U.check_close(ux, (np.arange(nx) - ox) * dx, 1e-12, 'slices:stale-coords', 'x slice coordinates ' + what)
-        U.check_close(uy, (np.arange(ny) - oy) * dx, 1e-12, 'slices:stale-coords', 'y slice coordinates ' + what)
+        U.check_close(ux, sgx * (np.arange(nx) - ox) * dx, 1e-12, 'slices:stale-coords', 'x slice coordinates ' + what)
+        U.check_close(uy, sgy * (np.arange(ny) - oy) * dx, 1e-12, 'slices:stale-coords', 'y slice coordinates ' + what)
         # one-sided slices start on the origin sample: coordinates from exactly 0, values from data[oy, ox], equal lengths
         s1 = ctx.call(rd.slices, False)
-        for name, (u1, v1), wantu, wantv in (('x', s1.x, (np.arange(nx) - ox)[ox:] * dx, data[oy, ox:]), ('y', s1.y, (np.arange(ny) - oy)[oy:] * dx, data[oy:, ox])):
+        for name, (u1, v1), wantu, wantv in (('x', s1.x, sgx * (np.arange(nx) - ox)[ox:] * dx, data[oy, ox:]), ('y', s1.y, sgy * (np.arange(ny) - oy)[oy:] * dx, data[oy:, ox])):
             U.check_shape(v1, wantv.shape, 'slices:one-sided:%s:length' % name, 'one-sided %s slice values %s' % (name, what))
             U.check_shape(u1, wantu.shape, 'slices:one-sided:%s:length' % name, 'one-sided %s slice coordinates %s' % (name, what))
             U.check_equal(v1, wantv, 'slices:one-sided:%s' % name, 'one-sided %s slice does not start on the origin sample %s' % (name, what))
